@@ -78,11 +78,15 @@ func NewJSONBulkHandlerFactory(bulkMaxSize int) HandlerFactory {
 var _ HandlerFactory = (*jsonBulkHandlerFactory)(nil)
 
 func writeJSONResponse(w http.ResponseWriter, actions []string, results []BulkElementResult, error error) {
+	failed := error != nil // the stream itself was malformed
 	for _, result := range results {
 		if result.Error != nil {
-			w.WriteHeader(http.StatusBadRequest)
+			failed = true
 			break
 		}
+	}
+	if failed {
+		w.WriteHeader(http.StatusBadRequest)
 	}
 
 	slices.SortFunc(results, func(a, b BulkElementResult) int {
